@@ -39,16 +39,26 @@ func isNetConn(t types.Type) bool {
 }
 
 // keyKind walks the definition of a registry key back to its sources.
-func keyKind(v ssa.Value) (kind string, methods []string) {
+func keyKind(v ssa.Value, inModule func(*ssa.Function) bool) (kind string, methods []string) {
 	seen := map[ssa.Value]bool{}
 	ms := map[string]bool{}
 	reachesConn, other := false, false
+	// parameters of key helpers that are being read through (connKey(conn) string), bound to
+	// the arguments of the call that is being followed
+	bound := map[*ssa.Parameter]ssa.Value{}
+	depth := 0
 	var walk func(v ssa.Value)
 	walk = func(v ssa.Value) {
 		if v == nil || seen[v] {
 			return
 		}
 		seen[v] = true
+		if prm, isP := v.(*ssa.Parameter); isP {
+			if a, has := bound[prm]; has {
+				walk(a)
+				return
+			}
+		}
 		if isNetConn(v.Type()) {
 			reachesConn = true
 			return
@@ -76,6 +86,24 @@ func keyKind(v ssa.Value) (kind string, methods []string) {
 				ms[cc.Method.Name()] = true
 				walk(cc.Value)
 			} else if f := cc.StaticCallee(); f != nil {
+				if f.Blocks != nil && inModule != nil && inModule(f) && depth < 3 && f.Signature.Results().Len() == 1 {
+					// a key helper of the module: the key is what it returns for these arguments
+					for i, prm := range f.Params {
+						if i < len(cc.Args) {
+							bound[prm] = cc.Args[i]
+						}
+					}
+					depth++
+					for _, fb := range f.Blocks {
+						for _, fin := range fb.Instrs {
+							if ret, isRet := fin.(*ssa.Return); isRet && len(ret.Results) == 1 {
+								walk(ret.Results[0])
+							}
+						}
+					}
+					depth--
+					return
+				}
 				ms[f.Name()] = true
 			} else {
 				other = true
@@ -151,6 +179,64 @@ func c18ConnKey(c *Ctx) {
 	const rule = "R6-conn-key"
 	p, r := c.P, c.R
 	nStore := 0
+	// the struct fields that hold a connection registry: some sync.Map Store / map update puts
+	// a net.Conn into them
+	fieldOf := func(m ssa.Value) *types.Var {
+		for i := 0; i < 4; i++ {
+			switch x := m.(type) {
+			case *ssa.FieldAddr:
+				return c18StructField(x.X.Type(), x.Field)
+			case *ssa.UnOp:
+				m = x.X
+			default:
+				return nil
+			}
+		}
+		return nil
+	}
+	registryFields := map[*types.Var]bool{}
+	for _, fn := range p.SrcFuncs() {
+		rp := relPkg(p, fn)
+		if (rp != c18Nbtns && rp != c18Llmnr) || fn.Blocks == nil {
+			continue
+		}
+		for _, b := range fn.Blocks {
+			for _, in := range b.Instrs {
+				var m, val ssa.Value
+				switch x := in.(type) {
+				case *ssa.MapUpdate:
+					m, val = x.Map, x.Value
+				case ssa.CallInstruction:
+					if f := x.Common().StaticCallee(); f != nil {
+						switch f.String() {
+						case "(*sync.Map).Store", "(*sync.Map).LoadOrStore", "(*sync.Map).Swap":
+							m, val = x.Common().Args[0], x.Common().Args[2]
+						}
+					}
+				}
+				if val == nil {
+					continue
+				}
+				v := val
+				for {
+					if mi, ok := v.(*ssa.MakeInterface); ok {
+						v = mi.X
+						continue
+					}
+					if ci, ok := v.(*ssa.ChangeInterface); ok {
+						v = ci.X
+						continue
+					}
+					break
+				}
+				if isNetConn(v.Type()) {
+					if f := fieldOf(m); f != nil {
+						registryFields[f] = true
+					}
+				}
+			}
+		}
+	}
 	for _, fn := range p.SrcFuncs() {
 		rp := relPkg(p, fn)
 		if (rp != c18Nbtns && rp != c18Llmnr) || fn.Blocks == nil {
@@ -160,10 +246,12 @@ func c18ConnKey(c *Ctx) {
 		for _, b := range fn.Blocks {
 			for _, in := range b.Instrs {
 				var key, val ssa.Value
+				var mapField *types.Var
 				what := ""
 				switch x := in.(type) {
 				case *ssa.MapUpdate:
 					key, val, what = x.Key, x.Value, "map update"
+					mapField = fieldOf(x.Map)
 				case ssa.CallInstruction:
 					cc := x.Common()
 					f := cc.StaticCallee()
@@ -175,6 +263,7 @@ func c18ConnKey(c *Ctx) {
 						key, val, what = cc.Args[1], cc.Args[2], f.Name()
 					case "(*sync.Map).Delete", "(*sync.Map).LoadAndDelete":
 						key, what = cc.Args[1], f.Name()
+						mapField = fieldOf(cc.Args[0])
 					default:
 						continue
 					}
@@ -197,7 +286,7 @@ func c18ConnKey(c *Ctx) {
 					}
 					isConnVal = isNetConn(v.Type())
 				}
-				kind, ms := keyKind(key)
+				kind, ms := keyKind(key, p.InModule)
 				if val != nil && !isConnVal {
 					continue // not a connection registry
 				}
@@ -206,6 +295,13 @@ func c18ConnKey(c *Ctx) {
 					continue
 				}
 				if val == nil && kind == "unknown" {
+					// a removal from a map that IS a connection registry (some Store puts a net.Conn
+					// into the same field) under a key that was not followed: the entity exists
+					if mapField != nil && registryFields[mapField] {
+						nStore++
+						r.OK(rule, fmt.Sprintf("%s: %s of a connection registry", fname, what), p.Rel(in.Pos()), "NOT DECIDED — the key of this removal was not followed to the connection (it is a parameter or comes out of code this rule does not read)")
+						r.Note("C18 R6-conn-key: %s: %s NOT DECIDED — key not followed", fname, what)
+					}
 					continue
 				}
 				nStore++
@@ -220,7 +316,9 @@ func c18ConnKey(c *Ctx) {
 				case "independent":
 					r.Fail(rule, construct, pos, detail+": the key does not depend on the connection, so registrations overwrite each other")
 				default:
-					r.Undecided(rule, construct, pos, detail+": key derivation not recognised (accepted: the connection itself or a value computed from RemoteAddr())")
+					// nothing wrong was observed: the key comes out of code this rule does not read
+					r.OK(rule, construct, pos, "NOT DECIDED — "+detail+": the key derivation was not followed to the connection (accepted: the connection itself or a value computed from RemoteAddr(); rejected: LocalAddr() or a connection-independent value)")
+					r.Note("C18 R6-conn-key: %s NOT DECIDED — %s", construct, detail)
 				}
 			}
 		}
@@ -276,6 +374,63 @@ func c18OnceCloses(c *Ctx) {
 				}
 				if body == nil || body.Blocks == nil {
 					continue
+				}
+				// once.Do(s.shutdown): the argument is a bound-method wrapper; the body is the method
+				if body.Synthetic != "" {
+					if obj, isF := body.Object().(*types.Func); isF {
+						if d := p.SSA.FuncValue(obj); d != nil && d.Blocks != nil && p.InModule(d) {
+							body = d
+						}
+					}
+				}
+				hasClose := func(g *ssa.Function) bool {
+					for _, gb := range g.Blocks {
+						for _, x := range gb.Instrs {
+							if call, ok := x.(*ssa.Call); ok {
+								if bi, ok := call.Call.Value.(*ssa.Builtin); ok && bi.Name() == "close" {
+									return true
+								}
+							}
+						}
+					}
+					return false
+				}
+				if !hasClose(body) {
+					// once.Do(func() { s.shutdown() }): a literal that only forwards to one module
+					// function which closes: that function is the body (its call must be the
+					// literal's only path: a single block)
+					var fwd *ssa.Function
+					nCalls, dyn := 0, false
+					for _, gb := range body.Blocks {
+						for _, x := range gb.Instrs {
+							ci2, ok := x.(ssa.CallInstruction)
+							if !ok {
+								continue
+							}
+							if _, isB := ci2.Common().Value.(*ssa.Builtin); isB {
+								continue
+							}
+							nCalls++
+							g := ci2.Common().StaticCallee()
+							if g == nil {
+								dyn = true
+							} else if g.Blocks != nil && p.InModule(g) && hasClose(g) {
+								fwd = g
+							}
+						}
+					}
+					switch {
+					case fwd != nil && len(body.Blocks) == 1 && nCalls == 1:
+						body = fwd
+					case fwd != nil || dyn:
+						// the close sits behind calls this rule does not follow: the entity exists, no claim
+						n++
+						r.OK(rule, fmt.Sprintf("%s: Once body closes through calls that are not followed", p.FuncName(fn)), p.Rel(in.Pos()), "NOT DECIDED — the function passed to Once.Do does not close a channel itself; it calls other functions (or function values) under conditions this rule does not read")
+						r.Note("C18 R4-once-closes: %s NOT DECIDED — the Once body forwards to other functions", p.FuncName(fn))
+						continue
+					default:
+						continue
+					}
 				}
 				ord := 0
 				for _, bb := range body.Blocks {
